@@ -52,17 +52,22 @@ class C19(Prop):
     def run_big(self, lib, case, stats):
         msg = ctypes.create_string_buffer(200)
         live = lib.ledger_live()
-        rc = lib.shim_big_sort(case["n"], case["order"], case["cs"], case["how"], msg, 200)
+        n = case["n"]
+        if case["how"] != 0:
+            # through the utilities the size stays moderate: nothing promises that patch 'test' or the generators are better than
+            # quadratic in the number of members (a pairwise key lookup instead of a sort would be a legitimate implementation)
+            n = min(n, 20000)
+        rc = lib.shim_big_sort(n, case["order"], case["cs"], case["how"], msg, 200)
         stats.inner += 1
         stats.cls("big_object")
-        if case["n"] > 10001:
+        if n > 10001:
             stats.cls("big_object>10001")
         stats.nontriv(["big", case["n"], case["order"], case["cs"], case["how"]], dict(case))
         if rc < 0:
             raise RuntimeError("harness: shim_big_sort: " + msg.value.decode())
         if rc:
             raise Violation("object of %d members (key order class %d, %s, via %s): %s" % (
-                case["n"], case["order"], "case-sensitive" if case["cs"] else "case-insensitive",
+                n, case["order"], "case-sensitive" if case["cs"] else "case-insensitive",
                 ["SortObject", "patch test", "GeneratePatches", "GenerateMergePatch"][case["how"]], msg.value.decode()), key="big:%d" % rc)
         if lib.ledger_live() != live:
             raise Violation("blocks left allocated after sorting a large object", key="leak")
